@@ -26,6 +26,7 @@ import (
 	"go.temporal.io/api/enums/v1"
 	failurepb "go.temporal.io/api/failure/v1"
 	historypb "go.temporal.io/api/history/v1"
+	"go.temporal.io/server/common/codec"
 	"go.temporal.io/server/common/log"
 	"google.golang.org/grpc"
 	"google.golang.org/grpc/codes"
@@ -55,7 +56,8 @@ type vobOblig struct {
 	Value   string   `json:"value"`   // namespace name to put at the leaf (ns) / unused (sa)
 	Mode    string   `json:"mode"`    // "" = translation; "acl" = translation followed by the access-control interceptor
 	Bypass  bool     `json:"bypass"`  // request carries the translation-bypass header
-	Variant string   `json:"variant"` // "" | "tail" | "dirty" | "fill" (sibling namespace fields hold an unmapped name)
+	Solo    bool     `json:"solo"`    // only the translator under test is configured (names only / search attributes only)
+	Variant string   `json:"variant"` // "" | "tail" | "dirty" | "json" | "fill" (sibling namespace fields hold an unmapped name)
 }
 
 const (
@@ -85,6 +87,9 @@ var vobFill string
 // judged by its last event). vobDirty: every event blob on the path also holds a failure message with invalid UTF-8, so the
 // blob goes through the repair path before it is translated.
 var vobTail, vobDirty bool
+
+// vobJSON: event blobs on the path are JSON-encoded (ENCODING_TYPE_JSON, which Temporal's serializer decodes as well as proto3)
+var vobJSON bool
 
 const vobDirtyMark = "dirty@#@#"
 
@@ -202,6 +207,13 @@ func vobBuild(m protoreflect.Message, path []string, leafKind, value string) err
 		blob, err := serializer.SerializeEvents(evs)
 		if err != nil {
 			return err
+		}
+		if vobJSON {
+			data, err := codec.NewJSONPBEncoder().Encode(&historypb.History{Events: evs})
+			if err != nil {
+				return err
+			}
+			blob = &commonpb.DataBlob{EncodingType: enums.ENCODING_TYPE_JSON, Data: data}
 		}
 		if vobDirty {
 			blob.Data = bytes.ReplaceAll(blob.Data, []byte("@#@#"), []byte{0xff, 0xfe, 0xff, 0xfe})
@@ -350,10 +362,16 @@ func sortStrings(a []string) {
 type vobStream struct {
 	grpc.ServerStream
 	sent any
+	next proto.Message // what the peer sends next
 }
 
-func (s *vobStream) SendMsg(m any) error      { s.sent = m; return nil }
-func (s *vobStream) RecvMsg(m any) error      { return nil }
+func (s *vobStream) SendMsg(m any) error { s.sent = m; return nil }
+func (s *vobStream) RecvMsg(m any) error {
+	if s.next != nil {
+		proto.Merge(m.(proto.Message), s.next)
+	}
+	return nil
+}
 func (s *vobStream) Context() context.Context { return context.Background() }
 
 // vobTranslate pushes msg through the real interceptor code in the direction the root says and returns what the next
@@ -373,11 +391,13 @@ func vobTranslate(ic *TranslationInterceptor, r vobRoot, msg proto.Message) (pro
 			}
 			return st.sent.(proto.Message), nil
 		}
-		// a request on a stream is translated when it has been received
-		if err := w.RecvMsg(msg); err != nil {
+		// a request on a stream: the handler receives into an empty message; what it then holds is what it works with
+		st.next = msg
+		got := msg.ProtoReflect().New().Interface()
+		if err := w.RecvMsg(got); err != nil {
 			return nil, err
 		}
-		return msg, nil
+		return got, nil
 	}
 	var seen proto.Message
 	if r.Dir == "req" {
@@ -470,6 +490,9 @@ func TestVerifSchemaObligations(t *testing.T) {
 		NewNamespaceNameTranslator(log.NewNoopLogger(), nsMap, nsMap),
 		NewSearchAttributeTranslator(log.NewNoopLogger(), saMap, saMap),
 	})
+	// a connection may configure namespace translation without search-attribute translation and vice versa
+	icNsOnly := NewTranslationInterceptor(log.NewNoopLogger(), []Translator{NewNamespaceNameTranslator(log.NewNoopLogger(), nsMap, nsMap)})
+	icSaOnly := NewTranslationInterceptor(log.NewNoopLogger(), []Translator{NewSearchAttributeTranslator(log.NewNoopLogger(), saMap, saMap)})
 	// C13: chained one-to-one mappings (a->b, b->c): every name / key is translated exactly one step
 	chainNs := map[string]string{"ns-a": "ns-b", "ns-b": "ns-c"}
 	chainSa := map[string]map[string]string{"ns-id": {"sa-a": "sa-b", "sa-b": "sa-c", "sa-same": "sa-same"}}
@@ -481,6 +504,7 @@ func TestVerifSchemaObligations(t *testing.T) {
 	aclMap := map[string]string{"ns-remote-ok": "ns-allowed", "ns-remote-bad": "ns-forbidden"}
 	aclTr := NewTranslationInterceptor(log.NewNoopLogger(), []Translator{NewNamespaceNameTranslator(log.NewNoopLogger(), aclMap, aclMap)})
 	acl := NewAccessControlInterceptor(log.NewNoopLogger(), nil, []string{"ns-allowed"})
+	primed := map[string]bool{}
 	sc := bufio.NewScanner(f)
 	sc.Buffer(make([]byte, 1<<20), 1<<26)
 	for sc.Scan() {
@@ -492,22 +516,48 @@ func TestVerifSchemaObligations(t *testing.T) {
 			t.Fatalf("bad obligation: %v", err)
 		}
 		if ob.Mode == "acl" {
-			vobTail, vobDirty = ob.Variant == "tail", false
+			vobTail, vobDirty, vobJSON = ob.Variant == "tail", false, ob.Variant == "json"
 			_ = enc.Encode(vobRunACL(aclTr, acl, ob))
-			vobTail = false
+			vobTail, vobJSON = false, false
 			continue
 		}
 		useIC := ic
 		vobSaKeys = []string{vobSaLocal, vobSaOther, "sa-same"}
 		vobTail, vobDirty, vobFill = ob.Variant == "tail", ob.Variant == "dirty", ""
+		vobJSON = ob.Variant == "json"
+		// a translator must not remember anything about a message type: the first time a root type is seen in this process an
+		// EMPTY message of that type (nothing to translate) goes through the same interceptor first
+		pk := fmt.Sprint(ob.Mode, "|", ob.Solo, "|", ob.Root.Type, "|", ob.Root.Dir)
+		if !primed[pk] {
+			primed[pk] = true
+			if em, err := vobNew(ob.Root.Type); err == nil {
+				pic := ic
+				if ob.Mode == "chain" {
+					pic = icChain
+				} else if ob.Solo && strings.HasPrefix(ob.Leaf, "ns") {
+					pic = icNsOnly
+				} else if ob.Solo {
+					pic = icSaOnly
+				}
+				func() {
+					defer func() { _ = recover() }()
+					_, _ = vobTranslate(pic, ob.Root, em.Interface())
+				}()
+			}
+		}
 		if ob.Variant == "fill" {
 			vobFill = "ns-unmapped-sibling"
 		}
 		if ob.Mode == "chain" {
 			useIC = icChain
 			vobSaKeys = []string{"sa-a", "sa-b", "sa-same"}
+		} else if ob.Solo {
+			useIC = icSaOnly
+			if strings.HasPrefix(ob.Leaf, "ns") {
+				useIC = icNsOnly
+			}
 		}
-		rec := map[string]interface{}{"ev": "Oblig", "mode": ob.Mode, "variant": ob.Variant, "id": ob.ID, "leaf": ob.Leaf, "service": ob.Root.Service, "dir": ob.Root.Dir,
+		rec := map[string]interface{}{"ev": "Oblig", "mode": ob.Mode, "solo": ob.Solo, "variant": ob.Variant, "id": ob.ID, "leaf": ob.Leaf, "service": ob.Root.Service, "dir": ob.Root.Dir,
 			"stream": ob.Root.Stream, "type": ob.Root.Type, "path": ob.Path, "reached": ob.Reached, "skipped": ob.Skipped, "inblob": ob.InBlob,
 			"in": []string{}, "out": []string{}, "err": "", "rest_equal": false, "built": false}
 		if ob.Variant == "dirty" {
@@ -587,6 +637,6 @@ func TestVerifSchemaObligations(t *testing.T) {
 			}
 		}()
 		_ = enc.Encode(rec)
-		vobTail, vobDirty, vobFill = false, false, ""
+		vobTail, vobDirty, vobFill, vobJSON = false, false, "", false
 	}
 }
